@@ -221,3 +221,23 @@ LEVEL_TEXT["C04"] = {
     "note": "Schedules sampled from generated tapes; SC interleavings at hook granularity.",
     "technique": "property-based testing with harness-owned deterministic schedules, grant/release history invariants",
 }
+
+PROPS["C03"] = {
+    "targets": [rt("props/C03_senders.cpp", 1500, 70, 20000, 900)],
+    "rule": "case = pipeline term (depth <= 5, <= 15 nodes) over leaves {just, transfer_just, schedule|then, instrumented leaf sender with "
+            "channel in value/error/stopped and timing in inline / later on the pool / later on a plain OS thread} and adaptors {then, "
+            "then(throw), let_value, let_error, continues_on, drop_value|then, drop_operation_state, require_started, ensure_started, split "
+            "(1..3 consumers), split_tuple, unpack, bulk, any_sender copy, when_all (2..3), when_all_vector (1..3)}; every edge erased to "
+            "unique_any_sender<P> so the real adaptors compose at run time; terminal = own receiver (connect+start) or sync_wait; run on the "
+            "real runtime (1..4 workers, 8 policies, perturbation); non-trivial iff depth >= 3 and (a non-value leaf or a shared-state "
+            "adaptor with an asynchronous leaf beneath it); distinct by hash of the decoded case",
+    "floor": {"quick": 100, "thorough": 1000},
+    "assumptions": ["when_all with several failing children may deliver any one of their non-value signals (set-valued oracle)",
+                    "sync_wait is only used on terms that cannot complete with stopped (its return type cannot express it)",
+                    "static adaptor-on-adaptor composition is not covered by the erased edges"],
+}
+LEVEL_TEXT["C03"] = {
+    "text": "Generated sender pipelines are built from the real adaptors (edges type-erased so that terms can be generated at run time), started on the real runtime and judged against a reference interpreter that computes the set of admissible completions of the same term: exactly one signal on the terminal receiver (checked again after a grace barrier), the signal is admissible (value payload / same exception id / stopped), tracked payloads and leaf operation states are balanced (none leaked, none used after destruction), a never-signalled receiver is caught by the state-based quiescence detector.",
+    "note": "Schedules for asynchronous leaves are sampled (perturbation, 1..4 workers); un-erased static compositions are not generated.",
+    "technique": "property-based testing (generated terms, reference interpreter as oracle, lifetime ledger, fork-per-case real runtime)",
+}
